@@ -140,6 +140,16 @@ template <class A> static Verdict incomplete_one(unsigned present, int state = 0
   if (!(present & 8)) m.reallocarray = nullptr;
   if (!(present & 16)) m.free = nullptr;
   const int WANT = URI_ERROR_MEMORY_MANAGER_INCOMPLETE;
+  std::basic_string<Ch> t1 = widen<Ch>("http://u@h:1/a/./b?q#f"), t2 = widen<Ch>("http://h/x/y"), q = widen<Ch>("a=b&c");
+  typename A::Uri a, b, d;
+  const Ch *ep;
+  VF_REQUIRE(A::ParseSingleUriEx(&a, t1.data(), t1.data() + t1.size(), &ep) == 0 && A::ParseSingleUriEx(&b, t2.data(), t2.data() + t2.size(), &ep) == 0, "setup parse failed");
+  struct Cl { typename A::Uri *a, *b; ~Cl() { A::FreeUriMembers(a); A::FreeUriMembers(b); } } cl{&a, &b};
+  if (state == 1) VF_REQUIRE(A::MakeOwner(&a) == 0 && A::MakeOwner(&b) == 0, "setup make-owner failed");
+  if (state == 2) VF_REQUIRE(A::NormalizeSyntaxEx(&a, URI_NORMALIZE_SCHEME) == 0 && A::NormalizeSyntaxEx(&b, URI_NORMALIZE_PATH) == 0, "setup normalise failed");
+  std::string fa = freeze<A>(a);
+  int rc;
+  memset(&d, 0, sizeof d);
   {
     // the very same manager object is used once while it is still complete, and loses its members afterwards in place
     UriMemoryManager whole = L.mm;
@@ -153,16 +163,6 @@ template <class A> static Verdict incomplete_one(unsigned present, int state = 0
     m = lost;
     L.reset_counts();
   }
-  std::basic_string<Ch> t1 = widen<Ch>("http://u@h:1/a/./b?q#f"), t2 = widen<Ch>("http://h/x/y"), q = widen<Ch>("a=b&c");
-  typename A::Uri a, b, d;
-  const Ch *ep;
-  VF_REQUIRE(A::ParseSingleUriEx(&a, t1.data(), t1.data() + t1.size(), &ep) == 0 && A::ParseSingleUriEx(&b, t2.data(), t2.data() + t2.size(), &ep) == 0, "setup parse failed");
-  struct Cl { typename A::Uri *a, *b; ~Cl() { A::FreeUriMembers(a); A::FreeUriMembers(b); } } cl{&a, &b};
-  if (state == 1) VF_REQUIRE(A::MakeOwner(&a) == 0 && A::MakeOwner(&b) == 0, "setup make-owner failed");
-  if (state == 2) VF_REQUIRE(A::NormalizeSyntaxEx(&a, URI_NORMALIZE_SCHEME) == 0 && A::NormalizeSyntaxEx(&b, URI_NORMALIZE_PATH) == 0, "setup normalise failed");
-  std::string fa = freeze<A>(a);
-  int rc;
-  memset(&d, 0, sizeof d);
   rc = A::ParseSingleUriExMm(&d, t1.data(), t1.data() + t1.size(), &ep, &m);
   VF_REQUIRE(rc == WANT, "%s: parse with incomplete manager %u: rc=%d", A::name(), present, rc);
   rc = A::AddBaseUriExMm(&d, &a, &b, URI_RESOLVE_STRICTLY, &m);
